@@ -49,6 +49,10 @@ func VerifC18Proxy() {
 	if r > 0 {
 		reqWire += "Range: bytes=" + strconv.Itoa(r) + "-\r\n"
 	}
+	if vf.Choice("client-asks-to-close", 2) == 1 {
+		// the response head then gains a Connection: close line, which belongs to the head
+		reqWire += "Connection: close\r\n"
+	}
 	reqWire += "\r\n"
 	cc := newClientConn("client", true, []byte(reqWire))
 	conn := l.GetTrafficShapedConn(cc)
